@@ -254,7 +254,8 @@ func cmdCheck(args []string) int {
 	if pc.TimeoutMs > 0 {
 		timeout = pc.TimeoutMs
 	}
-	if tier == "thorough" {
+	if tier == "thorough" && timeout < 120000 {
+		// (never below what the quick tier of this property is given)
 		timeout = 120000
 	}
 	if v, err := strconv.Atoi(os.Getenv("HOPVC_TIMEOUT_MS")); err == nil && v > 0 {
